@@ -32,7 +32,7 @@ type PointCase struct {
 
 // Point draws a curve point (identity included) from the mixture.
 func Point(t *rapid.T, label string) PointCase {
-	strat := Sampled([]string{"kG", "kG", "lift", "lift", "lift-y", "small-x", "x>=n", "small-y", "identity", "lambda"}).Draw(t, label+"_pstrat")
+	strat := Sampled([]string{"kG", "kG", "lift", "lift", "lift-y", "small-x", "x>=n", "small-y", "identity", "lambda", "eq-steered"}).Draw(t, label+"_pstrat")
 	odd := rapid.Bool().Draw(t, label+"_odd")
 	switch strat {
 	case "kG":
@@ -70,6 +70,31 @@ func Point(t *rapid.T, label string) PointCase {
 			y = ref.AddM(y, one, ref.P)
 		}
 		return PointCase{ref.G(), "kG"}
+	case "eq-steered":
+		// steer an intermediate of the curve-equation check (x^3, x^3 + 7 = y^2) to a hostile value H, in plain
+		// or Montgomery form: x = cbrt(H) resp. y = sqrt(H), x = cbrt(H - 7)
+		for i := 0; i < 24; i++ {
+			h := hostileEq(t, fmt.Sprintf("%s_h%d", label, i))
+			if rapid.Bool().Draw(t, fmt.Sprintf("%s_ysq%d", label, i)) {
+				y, ok := ref.SqrtP(h)
+				if !ok {
+					continue
+				}
+				if roots := ref.CbrtP(ref.SubM(h, bi(7), ref.P)); len(roots) > 0 {
+					if odd != (y.Bit(0) == 1) {
+						y = ref.NegM(y, ref.P)
+					}
+					return PointCase{ref.Pt{X: roots[0], Y: y}, "eq-steered"}
+				}
+				continue
+			}
+			for _, x := range ref.CbrtP(h) {
+				if p, ok := ref.LiftX(x, odd); ok {
+					return PointCase{p, "eq-steered"}
+				}
+			}
+		}
+		return PointCase{ref.BaseMul(Int256(t, ref.N, label+"_k")), "kG"}
 	case "small-x":
 		x := nextOnCurveX(Small(t, label+"_x"))
 		p, _ := ref.LiftX(x, odd)
@@ -123,6 +148,8 @@ const (
 	RelPInf        = "P=O"
 	RelBothInf     = "P=Q=O"
 	RelLambda      = "Q=lambda*P"
+	RelNegLambda   = "Q=-lambda^e*P (y cancels, x differs)"
+	RelLambda2     = "Q=lambda^2*P"
 	RelCollinear   = "Q on a small-slope line through P"
 	RelSteered     = "Q solved so that an intermediate of the addition formulas is a hostile value"
 )
@@ -199,7 +226,7 @@ func PointPair(t *rapid.T, label string) (p, q ref.Pt, rel string) {
 	pc := Point(t, label+"_P")
 	p = pc.P
 	rel = Sampled([]string{RelIndependent, RelIndependent, RelEqual, RelNeg, RelDouble, RelPlusG, RelMinusG,
-		RelQInf, RelPInf, RelBothInf, RelLambda, RelCollinear, RelSteered, RelSteered}).Draw(t, label+"_rel")
+		RelQInf, RelPInf, RelBothInf, RelLambda, RelLambda2, RelNegLambda, RelNegLambda, RelCollinear, RelSteered, RelSteered}).Draw(t, label+"_rel")
 	switch rel {
 	case RelEqual:
 		q = p
@@ -222,6 +249,19 @@ func PointPair(t *rapid.T, label string) (p, q ref.Pt, rel string) {
 			q = p
 		} else {
 			q = ref.Pt{X: ref.MulM(p.X, ref.Beta, ref.P), Y: new(big.Int).Set(p.Y)}
+		}
+	case RelLambda2, RelNegLambda:
+		if p.Inf {
+			q = p
+			break
+		}
+		bx := ref.MulM(p.X, ref.Beta, ref.P)
+		if rel == RelLambda2 || rapid.Bool().Draw(t, label+"_sq") {
+			bx = ref.MulM(bx, ref.Beta, ref.P)
+		}
+		q = ref.Pt{X: bx, Y: new(big.Int).Set(p.Y)}
+		if rel == RelNegLambda {
+			q = q.Neg()
 		}
 	case RelSteered:
 		var ok bool
@@ -275,6 +315,20 @@ func Scale(t *rapid.T, label string) *big.Int {
 	}
 	rememberScale(t, l)
 	return l
+}
+
+func hostileEq(t *rapid.T, label string) *big.Int {
+	switch Sampled([]string{"mod-edge", "mod-edge", "mod-edge", "limb", "frac", "modlimb", "relation"}).Draw(t, label+"_h") {
+	case "mod-edge":
+		return ModEdge(t, ref.P, label)
+	case "limb":
+		return LimbEdge(t, ref.P, label)
+	case "frac":
+		return FracEdge(t, ref.P, label)
+	case "modlimb":
+		return ref.Mod(ModLimbMix(t, ref.P, label), ref.P)
+	}
+	return LimbRelation(t, ref.P, label)
 }
 
 func hostile(t *rapid.T, label string) *big.Int {
